@@ -31,7 +31,7 @@ MC_EXTRA_THOROUGH = {"aworset": (2, 2, 4, 1), "lww": (3, 1, 3, 1)}
 # quick tier); the thorough tier adds a seeded sample of the covering walks of the deeper second graph
 GEN_BOUNDS = {"set": (2, 1, 3, 1), "gcounter": (2, 1, 3, 1)}
 GEN2_BOUNDS = {"set": (2, 1, 4, 1), "gcounter": (2, 1, 4, 1)}
-GEN2_SAMPLE = 1500
+GEN2_SAMPLE = 1000
 
 
 def set_consts(path, nrep, nelem, maxupd, maxsnap, amts=None):
@@ -236,7 +236,7 @@ def run(chk):
                     simulate="num=%d" % num, depth=simlen + 2, seed=chk.seed)
         return res, os.path.join(d, "sim.ndjson")
 
-    nsim = 30 if quick else 300
+    nsim = 30 if quick else 200
     simlen = 16 if quick else 24
     tmo = 1500 if quick else 3000
     t0 = time.time()
@@ -318,7 +318,7 @@ def run(chk):
             for n, w in enumerate(walks):
                 for t in targets:
                     cases.append({"kind": t, "nrep": b[0], "nelem": b[1] if kind == "set" else 0, "nslot": b[3], "steps": w,
-                                  "src": "walk" if tag == "gen-" else "walk2", "noprobe": (not quick) and n % 6 != 0})
+                                  "src": "walk" if tag == "gen-" else "walk2", "noprobe": (not quick) and n % 10 != 0})
         res, spath = jobs["sim-" + kind].result()
         chk.tlc_jobs.append(res.summary("sim-%s: random histories of CRDTTypes beyond the exhaustive bounds" % kind))
         chk.transitions += res.generated
@@ -346,7 +346,7 @@ def judge(chk, work, drv, cases, gen_notes, quick, collect_design=None):
             f.write(json.dumps(c) + "\n")
     tpath = os.path.join(chk.tmp, "trace.ndjson")
     t0 = time.time()
-    rc, o = V.run([drv, "-cases", cpath, "-out", tpath, "-seed", str(chk.seed), "-par", "8"], timeout=1800)
+    rc, o = V.run([drv, "-cases", cpath, "-out", tpath, "-seed", str(chk.seed), "-par", "8"], timeout=3000)
     if rc == 3:
         chk.inconclusive.append("c12drv: a case did not finish within the watchdog (hang is not a verdict)")
         rc = 0
